@@ -55,6 +55,7 @@ class Sched (object):
     self.keep_log = False
     self.monitor = None           # optional callable run at every scheduling point (invariants)
     self.rotate = False           # default successor policy at forced switches (False: lowest id)
+    self.reverse = False          # ... True: highest id (the threads started last - the foreign ones - go first)
     self._lock_owner = None
 
   # ---- thread management ------------------------------------------------------
@@ -180,6 +181,8 @@ class Sched (object):
         # default successor: next thread after me in id order (round robin), not always the lowest id
         later = [t for t in cands if t.tid > me.tid]
         cands = later + [t for t in cands if t.tid < me.tid]
+      elif not me_ok and self.reverse and len(cands) > 1:
+        cands = cands[::-1]
       c = self.ctx.choose(len(cands), label, costly=True)
       nxt = cands[c]
     if nxt is me:
